@@ -20,7 +20,7 @@ type whenWorld struct {
 }
 
 func (w *whenWorld) Name() string { return "when/" + w.sig }
-func (w *whenWorld) Begin()       { w.b = mocker.Create(); w.wh = nil }
+func (w *whenWorld) Begin()       { w.b = mocker.Create(); w.wh = nil; curSig = w.sig }
 func (w *whenWorld) End() string {
 	catch(func() { w.b.Reset() })
 	return ""
@@ -44,21 +44,48 @@ func (w *whenWorld) handle() mocker.ExportedMocker {
 		return w.b.Struct(&sig.S{}).Method("MV")
 	case "n1":
 		return w.b.Func(sig.N1)
+	case "t2":
+		return w.b.Func(sig.T2)
+	case "tv":
+		return w.b.Func(sig.TV)
 	}
 	panic("sig " + w.sig)
 }
 
-func expr(e interface{}) interface{} {
+// curSig: the signature class of the run (typed classes map the spec's value tokens 0, 1, 2 to typed values by position)
+var curSig string
+
+var strTok = []string{"", "a", "bb"}
+
+// typedVal: the value of token v at argument position pos (0-based) for the current signature class; every call makes
+// fresh pointers, so that pointer conditions are compared by pointee
+func typedVal(v, pos int) interface{} {
+	switch curSig {
+	case "t2":
+		if pos == 0 {
+			return strTok[v]
+		}
+		if v == 0 {
+			return (*sig.P)(nil)
+		}
+		return &sig.P{N: v, S: strTok[v]}
+	case "tv":
+		return strTok[v]
+	}
+	return v
+}
+
+func expr(e interface{}, pos int) interface{} {
 	m := e.(map[string]interface{})
 	switch m["k"] {
 	case "val":
-		return int(m["v"].(float64))
+		return typedVal(int(m["v"].(float64)), pos)
 	case "any":
 		return arg.Any()
 	case "in":
 		var vs []interface{}
 		for _, x := range m["s"].([]interface{}) {
-			vs = append(vs, int(x.(float64)))
+			vs = append(vs, typedVal(int(x.(float64)), pos))
 		}
 		return arg.In(vs...)
 	}
@@ -67,8 +94,8 @@ func expr(e interface{}) interface{} {
 
 func exprs(l interface{}) []interface{} {
 	var out []interface{}
-	for _, e := range l.([]interface{}) {
-		out = append(out, expr(e))
+	for i, e := range l.([]interface{}) {
+		out = append(out, expr(e, i))
 	}
 	return out
 }
@@ -138,6 +165,14 @@ func (w *whenWorld) call(fixed, tail []int) int {
 		return (&sig.S{Tag: 3}).M1(fixed[0])
 	case "mv":
 		return (&sig.S{Tag: 3}).MV(fixed[0], tail...)
+	case "t2":
+		return sig.T2(typedVal(fixed[0], 0).(string), typedVal(fixed[1], 1).(*sig.P))
+	case "tv":
+		var xs []string
+		for _, t := range tail {
+			xs = append(xs, strTok[t])
+		}
+		return sig.TV(strTok[fixed[0]], xs...)
 	case "n1":
 		before := sig.N1Ran
 		sig.N1(fixed[0])
